@@ -1865,6 +1865,18 @@ class MapDataset(Dataset):
             return super().__getitem__(item)
 
 
+class _KeyedIterable:
+    """
+    The (key, example) pairs of a dataset as an iterable: each `iter` starts a
+    new keyed iteration of the dataset.
+    """
+    def __init__(self, dataset):
+        self.dataset = dataset
+
+    def __iter__(self):
+        return self.dataset.__iter__(with_key=True)
+
+
 class ParMapDataset(MapDataset):
     """
     Should this dataset support getitem? Getitem disables the buffer.
@@ -1911,7 +1923,12 @@ class ParMapDataset(MapDataset):
             return lazy_parallel_map(
                 functools.partial(
                     self._with_key_map_function, func=self.map_function),
-                self.input_dataset.__iter__(with_key=True),
+                # An iterable, not the iterator: lazy_parallel_map keeps its
+                # argument alive in a frame that the traceback of a failed
+                # example refers to. A running iterator of the input (e.g. of
+                # a prefetch with its background thread) would survive the
+                # failure until the garbage collector finds the cycle.
+                _KeyedIterable(self.input_dataset),
                 buffer_size=self.buffer_size,
                 max_workers=self.num_workers,
                 backend=self.backend,
